@@ -909,3 +909,318 @@ def vaarg_sites(mod, tables):
         sites.append({'load': i, 'kind': kind, 'bits': bits, 'eff_bits': eff, 'ext': ext, 'convs': convs,
                       'length': length})
     return sites
+
+
+# ----------------------------------------------------------------------------------------------
+# symbolic execution of the formatting routines in the context of one conversion
+# ----------------------------------------------------------------------------------------------
+def flag_param(f):
+    """position of the directive-word parameter of a formatting routine: the i32 parameter that is only ever masked with
+    constants (or handed on as the directive word of another routine)"""
+    cands = []
+    for n, p in enumerate(f.params):
+        if p['ty'].get('k') != 'int' or p['ty'].get('bits') != 32:
+            continue
+        us = [u for u in f.users(V({'k': 'arg', 'i': n})) if u.op != 'dbg']
+        if us and all((u.op == 'and' and any(o.k == 'ci' for o in u.ops)) or u.op == 'call' for u in us):
+            if any(u.op == 'and' for u in us) or all(u.op == 'call' for u in us):
+                cands.append(n)
+    return cands[-1] if cands else None
+
+
+def emitter_functions(mod):
+    """formatting routines: defined functions (other than __printf) whose parameter 0 is the output callback"""
+    top = mod.fn('__printf')
+    hty = top.params[HANDLER]['ty']['s']
+    out = {}
+    for f in mod.defined():
+        if f.name != '__printf' and f.params and f.params[0]['ty']['s'] == hty:
+            out[f.name] = f
+    return out
+
+
+class Infeasible(Exception):
+    pass
+
+
+class CaseCtx:
+    """decision context for closed-form models: every undecided comparison forks the case"""
+
+    def __init__(self, sx, st, prefix):
+        self.sx = sx
+        self.st = st.fork()
+        self.prefix = prefix
+        self.trace = []
+        self.desc = []
+
+    def test(self, pred, a, b, what=None):
+        a = a if isinstance(a, Lin) else Lin(a)
+        b = b if isinstance(b, Lin) else Lin(b)
+        c = ('cmp', pred, a, b)
+        d = self.sx.decide(self.st, c)
+        if d is not None:
+            return d
+        i = len(self.trace)
+        choice = self.prefix[i] if i < len(self.prefix) else True
+        self.trace.append(choice)
+        sts = self.sx.assume(self.st, c, choice)
+        if not sts:
+            raise Infeasible()
+        self.st = sts[0]
+        self.desc.append('%s%s' % ('' if choice else 'not ', what or '%r %s %r' % (a, pred, b)))
+        return choice
+
+    def assume_eq(self, a, b):
+        self.st.cons.add_eq(a, b)
+        sy = set(a.t.keys()) | set((b if isinstance(b, Lin) else Lin(b)).t.keys())
+        if not self.sx.feasible(self.st, sy):
+            raise Infeasible()
+
+    def bit(self, sym, mask, name):
+        i = mask.bit_length() - 1
+        b = Lin.sym((sym, 'bit', i))
+        self.st.cons.add_le(0, b)
+        self.st.cons.add_le(b, 1)
+        return self.test('sge', b, 1, 'flag %s' % name)
+
+    def max0(self, a, what=None):
+        return a if self.test('sge', a, 0, what) else Lin(0)
+
+    def eq(self, a, b):
+        return self.st.cons.entails_eq(a, b)
+
+
+def enum_cases(sx, st, fn, limit=20000):
+    """run fn(ctx) for every feasible vector of decisions; yields (ctx, result)"""
+    pending = [[]]
+    n = 0
+    while pending:
+        prefix = pending.pop()
+        ctx = CaseCtx(sx, st, prefix)
+        try:
+            res = fn(ctx)
+        except Infeasible:
+            res = None
+            # alternatives of the decisions taken before the infeasible one are still scheduled below
+        for i in range(len(prefix), len(ctx.trace)):
+            if ctx.trace[i]:
+                pending.append(ctx.trace[:i] + [False])
+        if res is not None:
+            n += 1
+            if n > limit:
+                raise AnalysisBroken('layout model: more than %d cases' % limit)
+            yield ctx, res
+
+
+def norm_segments(sx, ctx, segs, digit=None, strarg=None):
+    """canonical form of an emission log inside one case: zero-length segments dropped, constant strings as text,
+    the digit buffer and the string argument recognised, equal neighbours merged"""
+    out = []
+    for sg in segs:
+        kind = sg[0]
+        if kind == 'loop':
+            out.append(('unsummarised-loop',))
+            continue
+        cnt = sg[2] if kind != 'call' else sg[2]
+        if not ctx.test('sge', cnt, 1, '%r >= 1' % cnt):
+            if ctx.test('sle', cnt, 0) and not ctx.eq(cnt, 0):
+                out.append(('negative-count', cnt))
+            continue
+        if kind == 'c':
+            if out and out[-1][0] == 'c' and out[-1][1] == sg[1]:
+                out[-1] = ('c', sg[1], out[-1][2] + cnt)
+            else:
+                out.append(('c', sg[1], cnt))
+        elif kind == 'm':
+            p = sg[1]
+            if p.base[0] == 'g' and p.off.is_const() and cnt.is_const():
+                b = sx.global_bytes(p.base[1]) or []
+                txt = ''.join(chr(x) for x in b[p.off.c:p.off.c + cnt.c])
+                if len(txt) != cnt.c or '\0' in txt:
+                    out.append(('lit-overrun', p.base[1], cnt.c))
+                elif out and out[-1][0] == 'lit':
+                    out[-1] = ('lit', out[-1][1] + txt)
+                else:
+                    out.append(('lit', txt))
+            elif digit is not None and p.base == digit[0] and ctx.eq(p.off, digit[1]):
+                out.append(('digits', cnt))
+            elif strarg is not None and p.base == strarg and ctx.eq(p.off, 0):
+                out.append(('arg-chars', cnt))
+            else:
+                out.append(('mem', p.base, p.off, cnt))
+        else:
+            out.append((kind, sg[1], cnt))
+    return out
+
+
+def same_segments(ctx, a, b):
+    if len(a) != len(b):
+        return False
+    for x, y in zip(a, b):
+        if x[0] != y[0]:
+            return False
+        if x[0] == 'c':
+            if x[1] != y[1] or not ctx.eq(x[2], y[2]):
+                return False
+        elif x[0] == 'lit':
+            if x[1] != y[1]:
+                return False
+        elif x[0] in ('digits', 'arg-chars'):
+            if not ctx.eq(x[1], y[1]):
+                return False
+        else:
+            return False
+    return True
+
+
+def show_segments(segs):
+    out = []
+    for s in segs:
+        if s[0] == 'c':
+            out.append('%r x (%r)' % (chr(s[1]), s[2]))
+        elif s[0] == 'lit':
+            out.append(repr(s[1]))
+        elif s[0] in ('digits', 'arg-chars'):
+            out.append('%s(%r)' % (s[0], s[1]))
+        else:
+            out.append(repr(s))
+    return '[' + ', '.join(out) + ']'
+
+
+class Flags:
+    """the directive word as seen by a model: names of ISO flags -> bit of the word, from the parser's own table"""
+
+    def __init__(self, tables, sym='ops'):
+        self.t = tables
+        self.sym = sym
+
+    def get(self, ctx, name):
+        r = self._get(ctx, name)
+        if not hasattr(ctx, 'flags'):
+            ctx.flags = {}
+        ctx.flags[name] = r
+        return r
+
+    def _get(self, ctx, name):
+        if name in self.t['flags']:
+            m = self.t['flags'][name]
+        elif name == '.':
+            m = self.t['prec']
+        elif name == 'upper':
+            m = self.t['upper']
+        else:
+            raise KeyError(name)
+        return ctx.bit(self.sym, m, repr(name))
+
+
+def model_int(ctx, fl, conv, w, p, u, nd, ran):
+    """ISO C 7.21.6.1 layout of d i u o x X (and the p form documented by the property: 0x + all hex digits of the
+    pointer).  nd: number of digits of |value| (symbol), ran: the implementation generated digits at all"""
+    signed = conv in 'di'
+    base = {'d': 10, 'i': 10, 'u': 10, 'o': 8, 'x': 16, 'X': 16, 'p': 16}[conv]
+    ptr = conv == 'p'
+    L = fl.get(ctx, '-')
+    PL = fl.get(ctx, '+')
+    SP = fl.get(ctx, ' ')
+    H = fl.get(ctx, '#')
+    Z = fl.get(ctx, '0')
+    G = True if ptr else fl.get(ctx, '.')
+    U = fl.get(ctx, 'upper')
+    neg = signed and ctx.test('slt', u, 0, 'value < 0')
+    zero = (not neg) and ctx.test('sle', u, 0, 'value == 0')
+    if zero and ran:
+        ctx.assume_eq(nd, 1)
+    nodigits = G and zero and (not ptr) and ctx.test('sle', p, 0, 'precision == 0')
+    ndo = Lin(0) if nodigits else nd
+    if not nodigits and not ran:
+        return None, 'no digits are generated although the value needs at least one'
+    sign = '-' if neg else ('+' if signed and PL else (' ' if signed and SP else ''))
+    alt = ''
+    if base == 16 and (ptr or (H and not zero)):
+        alt = '0X' if U else '0x'
+    zprec = ctx.max0(p - ndo, 'precision > digits') if G else Lin(0)
+    if base == 8 and H and not ptr:
+        starts0 = (not ctx.eq(zprec, 0)) or (zero and not nodigits)
+        if not starts0:
+            zprec = Lin(1)
+    prefix = sign + alt
+    body = zprec + ndo + len(prefix)
+    zflag = ctx.max0(w - body, 'width > body') if (Z and not L and not G) else Lin(0)
+    sp = ctx.max0(w - body - zflag, 'width > body')
+    segs = []
+    if not L:
+        segs.append(('c', 32, sp))
+    if prefix:
+        segs.append(('lit', prefix))
+    segs.append(('c', 48, zprec + zflag))
+    segs.append(('digits', ndo))
+    if L:
+        segs.append(('c', 32, sp))
+    return segs, None
+
+
+def model_str(ctx, fl, w, p, slen, count_is=None):
+    """%s: min(precision, length) characters of the argument, padded with spaces to the width; %c: exactly one"""
+    L = fl.get(ctx, '-')
+    G = fl.get(ctx, '.')
+    if count_is is not None:
+        n = Lin(count_is)
+    elif G:
+        n = p if ctx.test('sle', p, slen, 'precision <= length') else slen
+    else:
+        n = slen
+    sp = ctx.max0(w - n, 'width > length')
+    segs = []
+    if not L:
+        segs.append(('c', 32, sp))
+    segs.append(('arg-chars', n))
+    if L:
+        segs.append(('c', 32, sp))
+    return segs, None
+
+
+def clean_model(ctx, segs):
+    out = []
+    for s in segs:
+        if s[0] == 'lit':
+            if s[1]:
+                out.append(s)
+            continue
+        cnt = s[2] if s[0] == 'c' else s[1]
+        if ctx.eq(cnt, 0):
+            continue
+        if not ctx.test('sge', cnt, 1):
+            continue
+        if s[0] == 'c' and out and out[-1][0] == 'c' and out[-1][1] == s[1]:
+            out[-1] = ('c', s[1], out[-1][2] + cnt)
+        else:
+            out.append(s)
+    return out
+
+
+class Layout:
+    """one formatting routine executed symbolically in the context of one conversion"""
+
+    def __init__(self, mod, tables, callee, argspec, pre=(), join_at=None, wide=('u',), cstr=None, bits=None):
+        self.mod = mod
+        self.tables = tables
+        self.f = mod.fn(callee)
+        emitters = emitter_functions(mod)
+        inline = [n for n in emitters if n != callee]
+        self.sx = SX(mod, handler_arg=HANDLER, inline=inline, bit_args=['ops'], wide_syms=wide,
+                     cstr_args=cstr or {}, join_at=join_at)
+        st = self.sx.start(self.f, argspec, pre)
+        for (mask, val) in (bits or ()):
+            b = Lin.sym(('ops', 'bit', mask.bit_length() - 1))
+            st.cons.add_le(0, b)
+            st.cons.add_le(b, 1)
+            st.cons.add_eq(b, val)
+        self.rets = self.sx.run_function(self.f, st)
+
+    def pcacc(self):
+        """[(ok, state, ret)]: the returned value equals the number of callback calls"""
+        out = []
+        for s, rv in self.rets:
+            ok = isinstance(rv, Lin) and s.cons.entails_eq(rv, s.E)
+            out.append((ok, s, rv))
+        return out
